@@ -33,6 +33,7 @@ func C02(r *core.Report) {
 	hitConfirmedByIndex(r, "C02.R9")
 	c02BlocktimeValueBlind(r)
 	everyFrameFollowedOnce(r, "C02.R11")
+	epochRoutedOnlyAfterTheFilter(r, "C02.R12")
 	r.Floor("C02.R10", 2)
 	r.Floor("C02.R8", 1)
 	for _, k := range []string{"main.(*Epoch).GetBlock", "main.(*Epoch).GetTransaction", "main.(*Epoch).GetNodeByCid", "main.(*Epoch).ReadAtFromCar"} {
@@ -564,7 +565,7 @@ func c02PositionOrder(r *core.Report) {
 			why = fmt.Sprintf("comparator %s %s %s", si.KeyI, si.Op, si.KeyJ)
 		} else {
 			// comparator with nil guards: its last return must be a strict `<` between the i and j elements' position
-			okCmp, why = lastReturnStrictLess(info, si.Call)
+			okCmp, why = lastReturnStrictLess(p, info, si.Call)
 		}
 		r.Check(okCmp, rule, f.Key+"#sorted-by-position", pos(r, sortNode.Ast), "transactions are sorted by recorded position, strictly ascending", "the transaction list is not sorted ascending by position: "+why)
 		// the sort follows every append and precedes the response
@@ -590,7 +591,7 @@ func c02PositionOrder(r *core.Report) {
 }
 
 // lastReturnStrictLess: the comparator literal of a sort call ends with `return a[i].K < a[j].K` (possibly dereferenced).
-func lastReturnStrictLess(info *types.Info, call *ast.CallExpr) (bool, string) {
+func lastReturnStrictLess(p *core.Prog, info *types.Info, call *ast.CallExpr) (bool, string) {
 	if call == nil || len(call.Args) < 2 {
 		return false, "comparator not found"
 	}
@@ -610,6 +611,17 @@ func lastReturnStrictLess(info *types.Info, call *ast.CallExpr) (bool, string) {
 	rs, ok := lit.Body.List[len(lit.Body.List)-1].(*ast.ReturnStmt)
 	if !ok || len(rs.Results) != 1 {
 		return false, "comparator does not end with a return"
+	}
+	// forwarding comparator: `return less(a[i], a[j])` - the helper is judged on its two parameters
+	if c, isCall := core.Unparen(rs.Results[0]).(*ast.CallExpr); isCall && len(c.Args) == 2 && len(lit.Body.List) == 1 && p != nil {
+		if fn := core.Callee(info, c); fn != nil {
+			if h := p.ByObj[fn.Origin()]; h != nil && h.Body != nil && h.ParamObj(0) != nil && h.ParamObj(1) != nil {
+				a0, a1 := core.ExprStr(c.Args[0]), core.ExprStr(c.Args[1])
+				if strings.Contains(a0, "["+names[0]+"]") && strings.Contains(a1, "["+names[1]+"]") && strings.Replace(a0, "["+names[0]+"]", "[·]", 1) == strings.Replace(a1, "["+names[1]+"]", "[·]", 1) {
+					return helperStrictLessOnPosition(h)
+				}
+			}
+		}
 	}
 	be, ok := core.Unparen(rs.Results[0]).(*ast.BinaryExpr)
 	if !ok || (be.Op != token.LSS && be.Op != token.GTR) {
@@ -637,6 +649,61 @@ func lastReturnStrictLess(info *types.Info, call *ast.CallExpr) (bool, string) {
 	})
 	if bad {
 		return false, "an early return of the comparator is not `false`"
+	}
+	return true, ""
+}
+
+// helperStrictLessOnPosition: a two-parameter ordering helper whose every return is either the constant false
+// (incomparable) or a strict `<` between the same position key of its first and of its second parameter.
+func helperStrictLessOnPosition(h *core.Func) (bool, string) {
+	info := h.Pkg.TypesInfo
+	p0, p1 := h.ParamObj(0), h.ParamObj(1)
+	strict := 0
+	why := ""
+	ast.Inspect(h.Body, func(n ast.Node) bool {
+		if _, isLit := n.(*ast.FuncLit); isLit {
+			return false
+		}
+		rs, ok := n.(*ast.ReturnStmt)
+		if !ok || why != "" {
+			return true
+		}
+		if len(rs.Results) != 1 {
+			why = "the ordering helper " + h.Key + " has a return that is not a single value"
+			return true
+		}
+		if b, isB := boolConst(info, rs.Results[0]); isB {
+			if b {
+				why = "the ordering helper " + h.Key + " returns true without comparing positions"
+			}
+			return true
+		}
+		be, ok := core.Unparen(rs.Results[0]).(*ast.BinaryExpr)
+		if !ok || (be.Op != token.LSS && be.Op != token.GTR) {
+			why = "final comparison is " + core.ExprStr(rs.Results[0])
+			return true
+		}
+		x, y := be.X, be.Y
+		if be.Op == token.GTR {
+			x, y = y, x
+		}
+		l, rr := replaceIdent(info, x, p0), replaceIdent(info, y, p1)
+		if !strings.Contains(l, "·") || l != rr {
+			why = "final comparison is " + core.ExprStr(x) + " < " + core.ExprStr(y)
+			return true
+		}
+		if !(strings.Contains(l, "Position") || strings.Contains(l, "Index")) {
+			why = "sorted by " + core.ExprStr(x)
+			return true
+		}
+		strict++
+		return true
+	})
+	if why != "" {
+		return false, why
+	}
+	if strict == 0 {
+		return false, "the ordering helper " + h.Key + " never compares positions"
 	}
 	return true, ""
 }
@@ -781,7 +848,7 @@ func responseSortedByPosition(p *core.Prog, f *core.Func) bool {
 				if si.Decided && si.Strict && si.Op == token.LSS {
 					return true
 				}
-				if ok, _ := lastReturnStrictLess(info, si.Call); ok {
+				if ok, _ := lastReturnStrictLess(p, info, si.Call); ok {
 					return true
 				}
 			}
